@@ -75,6 +75,8 @@ class C14(F.Spec):
                       "tags": ["shape:witness"]})
         for i in range(150 if tier == "quick" else 1500):
             yield self.gen(rng, i)
+        for i in range(40 if tier == "quick" else 400):
+            yield self.gen_keep(rng, i)
 
     def gen(self, rng, i):
         o = self.offsets()
@@ -141,6 +143,38 @@ class C14(F.Spec):
                 "tags": ["shape:" + shape] + ["f:" + k.decode() for k, _ in fields]}
         return F.Case("gen%d-%s" % (i, shape), ops, meta)
 
+    def gen_keep(self, rng, i):
+        """a long password is stored (its overflow part behind the e-mail), then a form without a password changes the e-mail:
+        the stored password has to be kept, moved behind the new e-mail's terminator"""
+        o = self.offsets()
+        L, E = o["pwd.n"], o["email.n"]
+        plen = rng.choice([L - 1, L, L + 1, L + 10, L + 100, L + 200, E - 10])
+        pwd = bytes(rng.choice(b"ABCDEFGHJKLMNPQRSTUVWXYZ23456789") for _ in range(plen))
+        m1 = bytes(rng.choice(b"abcdefghij") for _ in range(rng.choice([1, 5, 20, 60, E - plen + L - 3 if E - plen + L - 3 > 0 else 5])))[:E - 1]
+        m2 = bytes(rng.choice(b"klmnopqrst") for _ in range(rng.choice([1, 5, 20, 60, 100, 200, E - 2, E - 1, E, E + 5])))
+        p1 = b"POST / HTTP/1.1\r\n\r\nsid=net&svr=s.example&eml=" + m1 + b"&pwd=" + pwd + b"&pro=0&led=1"
+        second = rng.choice([b"", b"&pwd="])
+        p2 = b"POST / HTTP/1.1\r\n\r\nsid=net&svr=s.example&eml=" + m2 + second + b"&pro=0&led=0"
+        ops = ["stack %02x" % rng.choice([0, 0xa5]), "conn", "seg " + p1.hex(), "show", "conn", "seg " + p2.hex(), "show"]
+        return F.Case("keep%d" % i, ops, {"shape": "keep", "m2": m2.hex(), "tags": ["shape:keep", "pwlen:%d" % (0 if plen < L else 1 if plen == L else 2)]})
+
+    def derive_keep(self, case, raw):
+        rs = self.recs(case, raw)
+        if len(rs) != 2:
+            return "", []
+        o = self.offsets()
+        L, E = o["pwd.n"], o["email.n"]
+        before, after = rs
+        saved2 = any(x.startswith("FLASH write 245760") and x.split()[-1] == "0" for x in raw[-2])
+        if not saved2:
+            return "", []
+        old_pwd, old_mail = self.fld(before, "pwd"), self.fld(before, "email")
+        m2 = bytes.fromhex(case.meta["m2"])[:E - 1]
+        new_mail = m2 + b"\0" + old_mail[len(m2) + 1:]          # the parser writes the value and its terminator over a copy of the old field
+        ops = ["keeppwd %d %d %s %s %s" % (L, E, old_pwd.hex(), old_mail.hex(), new_mail.hex())]
+        exp = [["KEEP %s %s" % (self.fld(after, "pwd").hex(), self.fld(after, "email").hex())]]
+        return "\n".join(ops) + "\n", exp
+
     def recs(self, case, raw):
         out = []
         for op, g in zip(case.ops, raw):
@@ -152,6 +186,8 @@ class C14(F.Spec):
     def derive_model(self, case, raw):
         me = case.meta
         ops, exp = [], []
+        if me.get("shape") == "keep":
+            return self.derive_keep(case, raw)
         if me.get("shape") != "form":
             return "", []
         rs = self.recs(case, raw)
